@@ -5,8 +5,9 @@ cd /verif
 if [ -d /tmp/wt${R}_$P/_mutant ]; then mkdir -p seeded/$D && cp /tmp/wt${R}_$P/_mutant/* seeded/$D/ && git -C /repo worktree remove --force /tmp/wt${R}_$P; fi
 python3 -c "import json;m=json.load(open('/verif/seeded/$D/meta.json'));print('SUMMARY:', m.get('summary','')[:400]);print('NEEDS:', str(m.get('needs_to_manifest',''))[:300])"
 tools/try_seeded.sh $D $P 2>/dev/null | grep -v conda | cut -c1-260
+cp evidence/$P.json /tmp/_ev_take_$P.json
 git -C /repo apply /verif/seeded/$D/patch.diff; bin/check $P >/dev/null 2>&1
 python3 -c "
 import json
 e=json.load(open('/verif/evidence/$P.json'));c=e['coverage'];print('OBLIGATIONS',c['obligations'],c['discharged'],[b[:150] for b in c['broken_obligations_or_correspondences']])"
-git -C /repo checkout -- .; rm -f replays/${P}_*
+git -C /repo checkout -- .; rm -f replays/${P}_*; mv /tmp/_ev_take_$P.json evidence/$P.json
